@@ -163,7 +163,21 @@ def only_importer_deviation(rec_with, rec_without, badset):
 
 
 def exc_info(e):
-    return {"exc": type(e).__name__, "caught": isinstance(e, (SyntaxError, ValueError))}
+    # what ProgramParser.__call__ catches around ast.parse + flatten_ast (fix d1e6a10)
+    return {"exc": type(e).__name__, "caught": isinstance(e, (SyntaxError, ValueError, RecursionError))}
+
+
+# valid programs whose FLATTENING fails (int literal beyond the 4300-digit str limit inside ast.dump: ValueError;
+# a tree far too deep for the recursive traversal: RecursionError), and deep-but-fine ones, well below every limit
+UNFLATTENABLE = [
+    "x = 0x" + "f" * 6000 + "\n",
+    "y = 0b" + "1" * 20000 + "\nprint(y)\n",
+    "import os\nz = 0o" + "7" * 9000 + "\n",
+    "if a == 0:\n    pass\n" + "".join(f"elif a == {i}:\n    pass\n" for i in range(1, 1500)),
+    "def f(a):\n    if a == 0:\n        return 0\n" + "".join(f"    elif a == {i}:\n        return {i}\n" for i in range(1, 2000)),
+    "t = " + "7" * 5000 + "\n",                      # too long for the PARSER itself: SyntaxError
+    "v = " + "[" * 90 + "1" + "]" * 90 + "\n",       # deep but fine
+]
 
 
 class Oracle:
@@ -211,13 +225,18 @@ class Oracle:
         if src not in self.parse:
             try:
                 tree = ast.parse(src)
-            except RecursionError:
-                raise
-            except Exception as e:  # noqa
+            except (Exception, RecursionError) as e:  # noqa
                 self.parse[src] = exc_info(e)
                 return self.parse[src]
             if not tree.body:
                 self.parse[src] = {"empty": True}
+                return self.parse[src]
+            # the external `flatten` of the model: flatten_ast on a non-empty tree (it may raise on a valid program)
+            try:
+                from paroxython.flatten_ast import flatten_ast
+                flatten_ast(tree)
+            except (Exception, RecursionError) as e:  # noqa
+                self.parse[src] = {"flatten_exc": exc_info(e)}
                 return self.parse[src]
             # the rest of ProgramParser.__call__ = the feature search, on a program holding that source
             try:
@@ -290,8 +309,12 @@ def judge(ctx, drv, orc, files, root, out_dir, strategy):
         pr = next(v for k, v in tables["parse"] if k == s)
         info.append({"path": p, "clean": "ok" if "ok" in c else c["exc"],
                      "parse": None if pr is None else ("empty" if "empty" in pr else "valid" if "labels" in pr
-                                                       else "features:" + pr["features_exc"]["exc"] if "features_exc" in pr else pr["exc"])})
+                                                       else "features:" + pr["features_exc"]["exc"] if "features_exc" in pr
+                                                       else pr["flatten_exc"]["exc"] if "flatten_exc" in pr else pr["exc"]),
+                     "unflattenable": bool(pr and "flatten_exc" in pr)})
     for i in info:
+        if i.get("unflattenable"):
+            ctx.dist(f"{strategy}.flatten.{i['parse']}")
         ctx.dist(f"{strategy}.clean.{i['clean']}")
         if i["parse"] is not None:
             ctx.dist(f"{strategy}.parse.{i['parse']}")
@@ -363,7 +386,9 @@ def gen_dir(rng):
             body = f"import {names[0]}\n" + body
         files[f"{names[i]}.py"] = body
     for j in range(n_bad):
-        if rng.random() < 0.3:
+        if rng.random() < 0.08:
+            t, k = rng.choice(UNFLATTENABLE), "unflattenable"
+        elif rng.random() < 0.3:
             t, k = rng.choice(FIXED_BAD), "fixed"
         else:
             t, k = mutate(rng, rng.choice(VALID))
@@ -463,6 +488,11 @@ def stream_dirs(ctx, drv, orc, n_dirs):
         ({"a.py": "import b\nx = 1\n", "b.py": "import a\n", "c.py": "def (:)\n"}, ["c.py"]),
         ({"a.py": "x = $\n"}, ["a.py"]),
         ({"a.py": "x = 1\n", "b.py": "# just a comment\n"}, ["b.py"]),
+        # valid programs whose flattening fails, next to normal files (fix d1e6a10)
+        ({"a.py": "x = 1\n", "big.py": UNFLATTENABLE[0]}, ["big.py"]),
+        ({"a.py": "import os\nprint(os.sep)\n", "chain.py": UNFLATTENABLE[3], "bits.py": UNFLATTENABLE[1], "deep.py": UNFLATTENABLE[6]},
+         ["chain.py", "bits.py"]),
+        ({"f.py": UNFLATTENABLE[4], "o.py": UNFLATTENABLE[2], "t.py": UNFLATTENABLE[5], "z.py": "y = 2\n"}, ["f.py", "o.py", "t.py"]),
         ({"a.py": "x = 1\n", "b.py": WS_ONLY[0]}, ["b.py"]),
         ({"a.py": WS_ONLY[1], "b.py": WS_ONLY[3], "c.py": "import a\n", "d.py": WS_ONLY[5]}, ["a.py", "b.py", "d.py"]),
         ({"a.py": WS_ONLY[9], "b.py": WS_ONLY[12], "c.py": WS_ONLY[-1], "d.py": WS_ONLY[-5], "e.py": "y = 2\n"},
@@ -598,7 +628,7 @@ def stream_tag(ctx, drv, orc, n):
     from paroxython.map_taxonomy import Taxonomy
 
     taxonomy = Taxonomy()
-    texts = list(FIXED_BAD[:8]) + [VALID[0]] + WS_ONLY[:3] + [VALID[-1]]
+    texts = list(FIXED_BAD[:8]) + [VALID[0]] + WS_ONLY[:3] + [VALID[-1], UNFLATTENABLE[0], UNFLATTENABLE[3]]
     while len(texts) < n:
         t, _ = mutate(ctx.rng, ctx.rng.choice(VALID))
         texts.append(t)
@@ -616,7 +646,8 @@ def stream_tag(ctx, drv, orc, n):
         pr = next(v for k, v in tables["parse"] if k == src)
         # the taxonomy's answer on the labels the model will produce (oracle)
         mlab = drv.call("c14.tag", source=raw, taxa=[], **tables)
-        kind = "empty" if "empty" in pr else "valid" if "labels" in pr else "features_exc" if "features_exc" in pr else pr["exc"]
+        kind = ("empty" if "empty" in pr else "valid" if "labels" in pr else "features_exc" if "features_exc" in pr
+                else pr["flatten_exc"]["exc"] if "flatten_exc" in pr else pr["exc"])
         ctx.dist(f"tag.parse.{kind}")
         ctx.count("tag", raw, nontrivial=kind != "valid")
         if "exc" in mlab:
